@@ -458,13 +458,9 @@ def normalize(img, scale_func=None, mode="all", error_on_divide_by_zero=True):
             "One or more the scale factors are 0.0 and thus these"
             "entries will be skipped during normalization."
         )
-        non_zero_denom = ~zero_denom
-        centered_pixels[non_zero_denom] = (
-            centered_pixels[non_zero_denom] / scale_factor[non_zero_denom]
-        )
-        return img.from_vector(centered_pixels)
-    else:
-        return img.from_vector(centered_pixels / scale_factor)
+        # entries whose scale factor is zero are left unscaled
+        scale_factor = np.where(scale_factor == 0, 1.0, scale_factor)
+    return img.from_vector(centered_pixels / scale_factor)
 
 
 @ndfeature
